@@ -29,6 +29,14 @@ class ToolError(Exception):
     pass
 
 
+class HarnessDied(ToolError):
+    """The code under test ended a harness process with a fatal signal."""
+
+    def __init__(self, returncode, cmd, tail):
+        super().__init__("harness process ended by signal %d: %s\n%s" % (-returncode, cmd, tail))
+        self.returncode, self.cmd, self.tail = returncode, [str(c) for c in cmd], tail
+
+
 def seed():
     try:
         return int(os.environ.get("VERIF_SEED", "1"))
@@ -62,6 +70,12 @@ def sh(cmd, cwd=None, env=None, timeout=None, check=True, capture=True):
     except subprocess.TimeoutExpired as ex:
         raise ToolError("timeout after %ss: %s" % (timeout, cmd)) from ex
     if check and p.returncode != 0:
+        # the harness binaries run the code under test in-process: when that code ends the process with a fatal
+        # signal of its own making (abort: failed allocation, stack overflow, double panic; SIGSEGV/SIGBUS/SIGILL)
+        # that is an outcome of the code, reported as a violation of the property being checked.  SIGKILL and
+        # other external causes stay tool errors.
+        if pre is not None and p.returncode in (-6, -11, -7, -4):
+            raise HarnessDied(p.returncode, cmd, (p.stdout or "")[-3000:])
         raise ToolError("command failed (%d): %s\n%s" % (p.returncode, cmd, (p.stdout or "")[-4000:]))
     return p
 
